@@ -15,7 +15,9 @@ sys.path.insert(0, os.path.join(os.path.dirname(os.path.abspath(__file__)), ".."
 from vlib import *
 import smtpsrv, sandbox, spawnrun
 
-CLASSES = ["ok", "odd", "4", "5", "drop"]
+CLASSES = ["ok", "odd", "4", "5", "drop", "junk"]
+# reply lines that do not start with three digits: never an acceptance, whatever the arithmetic on their bytes gives
+JUNK = ["2:0 ok", "25O ok", "0/: ok", "1A0 ok", " 250 ok", "\r\n250 ok", "-ERR no", "+OK", "ERR", "\xff\xff\xff ok", "25", "2 50 ok", "\t250 ok", "/50 ok", "250"[:2] + "\x00 ok"]
 EXPECTED = {"greet": 220, "helo": 250, "mail": 250, "rcpt": 250, "data": 354, "dot": 250}
 
 
@@ -85,6 +87,7 @@ def run_scripts(ck, tree, jobs, nworkers=16):
             rcpts = ["r%d@%s" % (k + 1, ep.host) for k in range(nr)]
             obs, out, rc = smtpsrv.run_remote(tree, ep, b"Subject: t\n\nbody\n", "s@sender.test", rcpts, script, timeout=12.0)
             recs[i] = observe(cls, obs, out, rc)
+            recs[i]["junk"] = sorted(set(v["raw"] for v in script.values() if isinstance(v, dict) and "raw" in v))
 
     ths = [threading.Thread(target=work, args=(ep,)) for ep in eps]
     for t in ths:
@@ -116,13 +119,20 @@ def observe(cls, obs, out, rc):
             "seen": seen, "out": out.decode("latin1")[:200], "end": obs.get("phase_end")}
 
 
-def to_server_script(rng, cls, multi_p=0.3):
+def to_server_script(rng, cls, multi_p=0.3, junk=None):
     sc = {}
+
+    def one(ph, c):
+        if c == "drop":
+            return {"drop": True}
+        if c == "junk":
+            return {"raw": junk if junk is not None else rng.choice(JUNK), "code": 599}
+        return {"code": code_for(rng, ph, c), "multi": rng.random() < multi_p}
     for ph in ("greet", "helo", "mail", "data", "dot"):
         c = cls[ph]
-        sc[ph] = {"drop": True} if c == "drop" else {"code": code_for(rng, ph, c), "multi": rng.random() < multi_p}
+        sc[ph] = one(ph, c)
     for i, c in enumerate(cls["rcpt"]):
-        sc["rcpt%d" % i] = {"drop": True} if c == "drop" else {"code": code_for(rng, "rcpt", c), "multi": rng.random() < multi_p}
+        sc["rcpt%d" % i] = one("rcpt", c)
     return sc
 
 
@@ -213,6 +223,18 @@ def main():
     for cls in allcls:
         for rep in range(2 if len(cls["rcpt"]) == 1 else 1):
             jobs.append((cls, to_server_script(rng, cls, multi_p=0.0 if rep == 0 else 0.6), len(cls["rcpt"])))
+    if not a.replay:
+        # every malformed reply line at every phase of an otherwise accepting session
+        for ph in ("greet", "helo", "mail", "rcpt", "data", "dot"):
+            for j in JUNK:
+                cls = {"greet": "ok", "helo": "ok", "mail": "ok", "rcpt": ["ok"], "data": "ok", "dot": "ok"}
+                if ph == "rcpt":
+                    for rc in (["junk"], ["ok", "junk"], ["junk", "ok"]):
+                        c2 = dict(cls, rcpt=rc)
+                        jobs.append((c2, to_server_script(rng, c2, 0.0, junk=j), len(rc)))
+                else:
+                    cls[ph] = "junk"
+                    jobs.append((cls, to_server_script(rng, cls, 0.0, junk=j), 1))
     # stalls (client time-out) at each phase, and no listener at all
     for ph in ("greet", "helo", "mail", "rcpt0", "data", "dot"):
         cls = {"greet": "ok", "helo": "ok", "mail": "ok", "rcpt": ["ok"], "data": "ok", "dot": "ok"}
@@ -232,7 +254,7 @@ def main():
     for r in recs:
         ck.count(json.dumps(r["s"], sort_keys=True) + r["out"][:1], nontrivial=r["s"]["greet"] == "ok")
     recfile = ck.scratch.path("c09.ndjson")
-    write_ndjson(recfile, [{k: v for k, v in r.items() if k not in ("out", "end")} for r in recs])
+    write_ndjson(recfile, [{k: v for k, v in r.items() if k not in ("out", "end", "junk")} for r in recs])
     bad, vres = tlc_validate_records("RemoteRec", "RemoteRec.cfg", recfile, len(recs), chunk=200)
     ck.add_tlc("RemoteRec", vres)
     ck.cov["traces_validated_against_impl"] = len(recs)
@@ -242,13 +264,15 @@ def main():
     best = {}
     for idx, why in bad:
         r = recs[idx - 1]
-        why = why.strip('"')
+        why = why.strip('"') + ("(malformed reply)" if r.get("junk") else "")
         if why not in best or len(json.dumps(r["s"])) < len(json.dumps(best[why]["s"])):
             best[why] = r
     for why, r in sorted(best.items()):
         s = r["s"]
         key = "remote:%s:script=%s/%s/%s/%s/%s/%s" % (why, s["greet"], s["helo"], s["mail"], ",".join(s["rcpt"]), s["data"], s["dot"])
-        ck.violation(key, "server script %s -> reports %s %s dup=%s exit=%s (%r)" % (s, r["rr"], r["mr"], r["dup"], r["exit"], r["out"][:100]), r)
+        if r.get("junk"):
+            key += ":reply=" + ",".join(j.encode("latin1").hex() for j in r["junk"])
+        ck.violation(key, "server script %s%s -> reports %s %s dup=%s exit=%s (%r)" % (s, (" with malformed reply %r" % r["junk"]) if r.get("junk") else "", r["rr"], r["mr"], r["dup"], r["exit"], r["out"][:100]), r)
 
     # ---- relay by qmail-rspawn
     if not a.replay or "s" not in json.load(open(a.replay))["case"]:
@@ -275,10 +299,10 @@ def main():
         for why, r in sorted(fbest.items()):
             ck.violation("relay:%s:%s:out=%s" % (why, r["exspec"].replace(" ", ""), bytes(r["out"]).hex()[:40]),
                          "qmail-remote output %r (%s) relayed as %r" % (bytes(r["out"]), r["exspec"], chr(r["relayed"]) if r["relayed"] else ""), r)
-    ck.cov["rule"] = ("every server script over {expected, other<400, 4xx, 5xx, disconnect} per phase for 1 recipient (single- and multi-line replies, boundary codes), "
+    ck.cov["rule"] = ("every server script over {expected, other<400, 4xx, 5xx, disconnect, malformed} per phase for 1 recipient (single- and multi-line replies, boundary codes), "
                       "%s for 2%s recipients, stalls at each phase, no listener; relay: every output of <=2 pieces (sampled 3) x exit 0 and 7 outputs x 9 exit/signal kinds; "
                       "non-trivial = the greeting was positive; distinct by (script, first output byte)" % ("all" if thorough else "a seeded sample of 1500", " and 3" if thorough else ""))
-    ck.assumptions += ["reply classes are represented by boundary codes; replies outside 2xx-5xx and per-line differing codes are not generated",
+    ck.assumptions += ["reply classes are represented by boundary codes and 15 malformed reply lines; 0xx/1xx/6xx+ codes and per-line differing codes are not generated",
                        "the possible-duplicate flag is observed as the text 'Possible duplicate' in the message report"]
     ck.finish()
 
